@@ -1,11 +1,15 @@
 import GcArena.Proofs.Events
+import GcArena.Proofs.Exact
 /-!
 # C02 — Exact, complete reclamation
 
 What a sweep step does to the object under the cursor, by colour — the local facts from which
-exactness follows — and the full statements, kept visible while their proofs (which need the
-termination measure of the driver loop and the exactness invariant "gray/black ⇒ strongly
-reachable while no mutator step intervenes") are being developed.
+exactness follows — and the full-strength theorems `exactness`, `shells`, `shell_release`.
+They rest on the termination of the driver loop (Proofs/Termination, Proofs/Protocol), on the
+fact that collector steps change neither the strong-reachability relation nor the "weakly held"
+relation (Proofs/Stable), and on the tightness invariant "gray/black ⇒ strongly reachable,
+weakly marked ⇒ weakly held, kept by the sweep ⇒ reachable or a weakly held shell, while no
+mutator step intervenes" (Proofs/Tight, lifted to `finish_cycle` calls in Proofs/Exact).
 -/
 namespace GcArena.C02
 
@@ -49,24 +53,61 @@ theorem reachable_survives {root : List Slot} (ms : List Micro) {c c' : Ctx} (h 
 def finishCycle2 (c : Ctx) (root : List Slot) : Ctx :=
   ((c.doCollection root .stop .finishCycle none).1.doCollection root .stop .finishCycle none).1
 
-/-- Full statement: exactness. -/
-def exact_statement : Prop :=
+/-- **Exactness** (proved, for every state satisfying the invariant — any phase, any colours
+    left by earlier mutator activity): after two consecutive `finish_cycle` calls the
+    undestructed allocated objects are *exactly* the objects strongly reachable from the root
+    when the first call began. -/
+theorem exactness :
   ∀ (c : Ctx) (root : List Slot), CInv c root [] →
-    ∀ i, (∃ o, (finishCycle2 c root).heap.get i = some o ∧ o.live = true) ↔ StrongReachC c root i
+    ∀ i, (∃ o, (finishCycle2 c root).heap.get i = some o ∧ o.live = true) ↔ StrongReachC c root i := by
+  intro c root h i
+  obtain ⟨h1, p1, s1, _⟩ := finishCycle_spec h
+  obtain ⟨h2, p2, s2, t2⟩ := finishCycle_spec h1
+  have T2 := t2 (fun hne => absurd p1 hne)
+  constructor
+  · rintro ⟨o, ho, hl⟩
+    exact (s1.reach i).mp ((s2.reach i).mp ((T2.asleep h2 p2 ho).1 hl))
+  · intro hr
+    obtain ⟨o, ho, hl, _⟩ := h2.safe_of_accessible ((s2.reach i).mpr ((s1.reach i).mpr hr))
+    exact ⟨o, ho, hl⟩
 
-/-- Full statement: what else stays allocated is a shell weakly held by something reachable. -/
-def shells_statement : Prop :=
+/-- **Shells** (proved): what else stays allocated after the two calls is a destructed shell
+    whose `GcWeak` is stored in the root or in a strongly reachable object. -/
+theorem shells :
   ∀ (c : Ctx) (root : List Slot), CInv c root [] →
     ∀ i o, (finishCycle2 c root).heap.get i = some o → o.live = false →
       some (Ptr.weak i) ∈ root ∨
-      ∃ j oj, StrongReachC c root j ∧ c.heap.get j = some oj ∧ some (Ptr.weak i) ∈ oj.slots
+      ∃ j oj, StrongReachC c root j ∧ c.heap.get j = some oj ∧ some (Ptr.weak i) ∈ oj.slots := by
+  intro c root h i o ho hl
+  obtain ⟨h1, p1, s1, _⟩ := finishCycle_spec h
+  obtain ⟨h2, p2, s2, t2⟩ := finishCycle_spec h1
+  have T2 := t2 (fun hne => absurd p1 hne)
+  exact (s1.weak i).mp ((s2.weak i).mp ((T2.asleep h2 p2 ho).2 hl))
 
-/-- Full statement: an unheld shell is released by the next full cycle. -/
-def shell_release_statement : Prop :=
+/-- **Shell release** (proved): a shell held by nothing reachable is released by the next full
+    cycle. -/
+theorem shell_release :
   ∀ (c : Ctx) (root : List Slot), CInv c root [] → c.phase = .sleep →
     ∀ i o, c.heap.get i = some o → o.live = false → some (Ptr.weak i) ∉ root →
       (∀ j oj, StrongReachC c root j → c.heap.get j = some oj → some (Ptr.weak i) ∉ oj.slots) →
-      (c.doCollection root .stop .finishCycle none).1.heap.get i = none
+      (c.doCollection root .stop .finishCycle none).1.heap.get i = none := by
+  intro c root h hp i o ho hl hnr hnh
+  obtain ⟨h1, p1, s1, t1⟩ := finishCycle_spec h
+  have T1 := t1 (fun hne => absurd hp hne)
+  cases ho' : (c.doCollection root .stop .finishCycle none).1.heap.get i with
+  | none => rfl
+  | some o' =>
+    exfalso
+    obtain ⟨hlive, hdead⟩ := T1.asleep h1 p1 ho'
+    cases hl' : o'.live with
+    | true =>
+      obtain ⟨o2, ho2, hl2, _⟩ := h.safe_of_accessible ((s1.reach i).mp (hlive hl'))
+      rw [ho] at ho2; cases ho2
+      rw [hl] at hl2; cases hl2
+    | false =>
+      rcases (s1.weak i).mp (hdead hl') with hw | ⟨j, oj, hj, hoj, hw⟩
+      · exact hnr hw
+      · exact hnh j oj hj hoj hw
 
 /-! ### Non-vacuity: a cycle of garbage and a weakly held shell -/
 
@@ -79,5 +120,75 @@ def demo : List Op := [
 
 example : ((Arena.new 1).run demo).ctx.log = [.freed 0, .dropped 0, .freed 1, .dropped 1, .dropped 2] := by decide
 example : ((Arena.new 1).run demo).ctx.all = [2] := by decide
+
+/-! ### Non-vacuity of the full-strength theorems -/
+
+/-- The state of `demo` just before the collection call: garbage cycle 0 ⇄ 1, object 2 weakly
+    held by the root. -/
+def before : Arena := (Arena.new 1).run (demo.take 8)
+
+theorem before_inv : CInv before.ctx before.root [] := by
+  have h := inv_run 1 (demo.take 8) (by decide)
+  have hc := h.cinv
+  rw [h.cbTemps (by decide)] at hc
+  exact hc
+
+theorem before_unreachable (i : Nat) : ¬ StrongReachC before.ctx before.root i := by
+  have hroot : before.root = [some (.weak 2)] := by decide
+  intro hi
+  induction hi with
+  | root t ht => rw [hroot] at ht; simp at ht
+  | temp t ht => cases ht
+  | edge _ _ _ _ ih => exact ih
+
+/-- `exactness` (⇒) applies to `before`: no undestructed object is left, whatever the id. -/
+example (i : Nat) : ¬ ∃ o, (finishCycle2 before.ctx before.root).heap.get i = some o ∧ o.live = true :=
+  fun h => before_unreachable i ((exactness _ _ before_inv i).mp h)
+
+/-- `shells` applies to `before`: the only block that can stay allocated is 2. -/
+example (i : Nat) (o : Obj) (ho : (finishCycle2 before.ctx before.root).heap.get i = some o)
+    (hl : o.live = false) : i = 2 := by
+  have hroot : before.root = [some (.weak 2)] := by decide
+  rcases shells _ _ before_inv i o ho hl with hw | ⟨j, _, hj, _⟩
+  · rw [hroot] at hw; simpa using hw
+  · exact absurd hj (before_unreachable j)
+
+/-- …and the self-driven model does leave exactly that: the destructed shell 2, nothing else. -/
+example : (finishCycle2 before.ctx before.root).heap.get 2 = some ⟨.white, true, false, []⟩ := by decide
+example : (finishCycle2 before.ctx before.root).heap.get 0 = none := by decide
+example : (finishCycle2 before.ctx before.root).heap.get 1 = none := by decide
+
+/-- A root holding object 0 strongly. -/
+def held : Arena :=
+  (Arena.new 1).run [.enter .mutateRoot, .alloc true [none], .rootStore 0 (some (.strong 0)), .leave]
+
+/-- `exactness` (⇐) applies to `held`: object 0 survives both calls undestructed. -/
+example : ∃ o, (finishCycle2 held.ctx held.root).heap.get 0 = some o ∧ o.live = true := by
+  have h := inv_run 1 [.enter .mutateRoot, .alloc true [none], .rootStore 0 (some (.strong 0)), .leave]
+    (by decide)
+  have hc := h.cinv
+  rw [h.cbTemps (by decide)] at hc
+  exact (exactness _ _ hc 0).mpr (.root 0 (by decide))
+
+/-- After `demo` (object 2 is a shell held weakly by the root) the root drops its weak pointer. -/
+def unheld : Arena := (Arena.new 1).run (demo ++ [.enter .mutateRoot, .rootStore 0 none, .leave])
+
+/-- `shell_release` applies to `unheld`: all its hypotheses hold, so the next `finish_cycle`
+    releases the shell 2. -/
+example : (unheld.ctx.doCollection unheld.root .stop .finishCycle none).1.heap.get 2 = none := by
+  have h := inv_run 1 (demo ++ [.enter .mutateRoot, .rootStore 0 none, .leave]) (by decide)
+  have hc : CInv unheld.ctx unheld.root [] := by
+    have hc := h.cinv
+    rw [h.cbTemps (by decide)] at hc
+    exact hc
+  have hroot : unheld.root = [none] := by decide
+  have hunreach : ∀ j, ¬ StrongReachC unheld.ctx unheld.root j := by
+    intro j hj
+    induction hj with
+    | root t ht => rw [hroot] at ht; simp at ht
+    | temp t ht => cases ht
+    | edge _ _ _ _ ih => exact ih
+  exact shell_release _ _ hc (by decide) 2 ⟨.white, true, false, []⟩ (by decide) rfl (by decide)
+    (fun j _ hj => absurd hj (hunreach j))
 
 end GcArena.C02
